@@ -382,18 +382,16 @@ class C18(Check):
         w = World(dev)
         op = Operator(ctx, cfg, dev, w, self.stdin_menu, self.getpass_menu)
         dev.operator = op
-        seed_stream = opstub.ByteStream("c18-seed-" + cfg["stream"])
-        misc_stream = opstub.ByteStream("c18-misc")
-        sleeper = opstub.NoSleep()
-        patches = [(self.H, "getDongle", w.get_dongle), (self.HT, "getDongle", w.get_dongle),
-                   (self.H, "hid", HidStub), (self.dongle_admin, "getDongle", w.get_dongle),
-                   (self.dongle_eth, "getDongle", w.get_dongle), (self.misc, "time", sleeper),
-                   (self.misc, "getpass", op.getpass),
-                   (self.onboard_mod, "os", opstub.OsProxy(seed_stream)),
-                   (os, "urandom", misc_stream)]
+        # ONE recording source behind every door to randomness (os.urandom, secrets, SystemRandom,
+        # from-imports); what was drawn for the seed is told apart by the call stack
+        stream = opstub.ByteStream("c18-seed-" + cfg["stream"])
+        patches = (opstub.seam_dongle(w.get_dongle) + opstub.seam_getpass(op.getpass) +
+                   opstub.seam_urandom(stream))
         r = opstub.run_main(self.mains[cfg["platform"]], self.argv(cfg, td), stdin=op, patches=patches)
         files = {n: td.read(n) for n in td.listing()}
-        return {"r": r, "dev": dev, "w": w, "op": op, "seeds": seed_stream.calls, "files": files,
+        return {"r": r, "dev": dev, "w": w, "op": op, "seed_pool": stream.produced_under("admin/onboard.py", exclude=("admin/dongle_admin.py",
+                                                                          "admin/unlock.py")),
+                "files": files,
                 "cfg": cfg}
 
     def run_case_single(self, case, choices, stats):
@@ -555,10 +553,10 @@ class C18(Check):
         for sb, _ok in seeds_sent:
             complete = sorted(sb) == list(range(32)) and all(len(v) == 1 for v in sb.values())
             seed = bytes(sb[i][0] for i in range(32)) if complete else None
-            produced = [s for s in o["seeds"] if len(s) == 32]
-            if seed is None or seed not in produced:
+            # the 32 bytes are (a run of) what the random source handed to the onboarding code
+            if seed is None or seed not in o["seed_pool"]:
                 V("seed", "not-from-random-source", {"seed": seed, "indices": sorted(sb)},
-                  {"seed": [s.hex() for s in produced]})
+                  {"seed_within": o["seed_pool"].hex()})
         # ---- PIN policy -------------------------------------------------------------
         if not anypin:
             for p in onboard_pins:
@@ -600,8 +598,8 @@ class C18(Check):
                 V("carried-out", "onboarding-not-attempted", {"end": end, "shape": shape,
                   "out": r.out[-300:]}, {"onboarding": "SEED, PIN, WIPE sent"})
             if pre and dims.get("onboarding") == "ok":
-                sent_seed = o["seeds"][0] if o["seeds"] else None
-                if not dev.onboarded or dev.onboard_seed != sent_seed or \
+                sent_seed = o["seed_pool"]
+                if not dev.onboarded or not dev.onboard_seed or dev.onboard_seed not in sent_seed or \
                         (bytes(dev.pin) != supplied and len(change_pins) == 0) or \
                         not getattr(dev, "onboard_seed_complete", False):
                     V("carried-out", "device-not-onboarded-as-asked",
